@@ -7,6 +7,7 @@ import (
 	"os"
 	"os/exec"
 	"path/filepath"
+	"sort"
 	"strings"
 	"sync"
 	"time"
@@ -23,6 +24,9 @@ var solvers = map[string]solverSpec{
 	"z3":     {name: "z3", argv: func(f string, t int) []string { return []string{"z3", fmt.Sprintf("-T:%d", t), f} }},
 	"cvc5": {name: "cvc5", argv: func(f string, t int) []string {
 		return []string{"cvc5", "--lang=smt2", fmt.Sprintf("--tlimit=%d", t*1000), "--enum-inst", f}
+	}, prep: func(s string) string { return "(set-logic ALL)\n" + s }},
+	"cvc5-fmf": {name: "cvc5-fmf", argv: func(f string, t int) []string {
+		return []string{"cvc5", "--lang=smt2", fmt.Sprintf("--tlimit=%d", t*1000), "--finite-model-find", f}
 	}, prep: func(s string) string { return "(set-logic ALL)\n" + s }},
 	"cvc5-default": {name: "cvc5-default", argv: func(f string, t int) []string {
 		return []string{"cvc5", "--lang=smt2", fmt.Sprintf("--tlimit=%d", t*1000), f}
@@ -81,27 +85,41 @@ func runSolver(sp solverSpec, dir string, id int, script string, timeoutS int) s
 	return solveResult{status: st, solver: sp.name, ms: ms, output: trunc(text, 2000)}
 }
 
-// discharge decides one obligation. Quick: first back end that answers unsat wins; a sat answer from the first
-// back end is final. Thorough: additionally require a second, independent back end to agree on unsat.
+// discharge decides one obligation. z3-new goes first; if it does not answer unsat, cvc5 (enum-inst), z3 4.8 and
+// cvc5's finite model finder (a witness search on the same script) run concurrently. Thorough tier: an unsat answer
+// must be confirmed by a second, independent back end.
 func discharge(o *Obligation, dir string, id int, tier string, timeoutS int) {
 	if o.Script == "" {
 		return
 	}
-	order := []string{"z3-new", "cvc5", "z3"}
+	if o.Expect == "cover" {
+		r := runSolver(solvers["z3-new"], dir, id, o.Script, 3)
+		o.Status, o.Solver, o.Ms, o.Output = r.status, r.solver, r.ms, fmt.Sprintf("[%s %s %dms]", r.solver, r.status, r.ms)
+		return
+	}
 	var results []solveResult
+	first := runSolver(solvers["z3-new"], dir, id, o.Script, timeoutS)
+	results = append(results, first)
 	unsatBy := []string{}
-	for _, name := range order {
-		r := runSolver(solvers[name], dir, id, o.Script, timeoutS)
-		results = append(results, r)
-		if r.status == "unsat" {
-			unsatBy = append(unsatBy, name)
-			if tier != "thorough" || len(unsatBy) >= 2 {
-				break
-			}
-			continue
+	if first.status == "unsat" {
+		unsatBy = append(unsatBy, "z3-new")
+	}
+	needMore := first.status != "sat" && (first.status != "unsat" || tier == "thorough")
+	if needMore {
+		names := []string{"cvc5", "z3"}
+		if first.status != "unsat" {
+			names = append(names, "cvc5-fmf")
 		}
-		if r.status == "sat" {
-			break
+		ch := make(chan solveResult, len(names))
+		for _, n := range names {
+			go func(n string) { ch <- runSolver(solvers[n], dir, id, o.Script, timeoutS) }(n)
+		}
+		for range names {
+			r := <-ch
+			results = append(results, r)
+			if r.status == "unsat" && r.solver != "cvc5-fmf" {
+				unsatBy = append(unsatBy, r.solver)
+			}
 		}
 	}
 	var total int64
@@ -114,23 +132,27 @@ func discharge(o *Obligation, dir string, id int, tier string, timeoutS int) {
 			final = "sat"
 		}
 	}
-	if len(unsatBy) > 0 && final != "sat" {
+	need := 1
+	if tier == "thorough" {
+		need = 2
+	}
+	if len(unsatBy) >= need && final != "sat" {
 		final = "unsat"
+	} else if final != "sat" && len(unsatBy) > 0 {
+		final = "unconfirmed"
 	}
 	if final == "unknown" {
 		for _, r := range results {
 			if r.status == "timeout" {
 				final = "timeout"
 			}
-			if r.status == "error" {
-				final = "error"
-			}
 		}
 	}
 	o.Status = final
+	sort.Strings(unsatBy)
 	o.Solver = strings.Join(unsatBy, "+")
 	if o.Solver == "" && len(results) > 0 {
-		o.Solver = results[len(results)-1].solver
+		o.Solver = results[0].solver
 	}
 	o.Ms = total
 	o.Output = strings.Join(outs, "\n")
